@@ -20,6 +20,9 @@
 #include <errno.h>
 #include <inttypes.h>
 #include "vh.h"
+#ifndef C08_BUILD_TAG
+#  define C08_BUILD_TAG "?"
+#endif
 #define CHACHA_SELF_TEST 1
 #include "crypto/cipher/chacha.h"
 #include "ref_chacha.h"
@@ -78,7 +81,7 @@ static struct {
 static void
 describe(char *b, size_t n) {
 	snprintf(b, n, "%s rounds=%u keybytes=%zu key#%d ctr0=0x%" PRIx64 " nonce#%d pos=%zu len=%zu "
-	    "src=%s@%d dst@%d scratch=0x%02x x=%d", CUR.what, CUR.cfg.rounds, CUR.cfg.keylen, CUR.cfg.key_id,
+	    "src=%s@%d dst@%d scratch=0x%02x x=%d build=" C08_BUILD_TAG, CUR.what, CUR.cfg.rounds, CUR.cfg.keylen, CUR.cfg.key_id,
 	    CUR.cfg.ctr0, CUR.cfg.nonce_id, CUR.n, CUR.c,
 	    (CUR.mode == 1) ? "NULL" : ((CUR.mode == 2) ? "dst" : "buf"), CUR.sa, CUR.da, CUR.poison, CUR.extra);
 }
